@@ -587,7 +587,8 @@ def gen_memo() -> Tuple[str, Dict[str, str]]:
         if isinstance(e, ast.Call) and ast.unparse(e.func) == "os.path.dirname" and len(e.args) == 1 \
                 and sym(e.args[0], env) == "FILE":
             return "DIR_OF_FILE"
-        raise Broken("translator(memo): Parser._get_child_filepath: unsupported expression", u)
+        raise Broken("translator(memo): Parser._get_child_filepath: import resolution uses something else than the import path, "
+                     "the importing file's directory, or the cwd when a string is parsed", u)
 
     def ret_code(e: ast.expr, env: Dict[str, str]) -> str:
         if isinstance(e, ast.Name) and env.get(e.id) == "PATH":
